@@ -59,6 +59,11 @@ checks.update({
    technique="explicit-state BFS over membership events on real members with a harness-driven membership layer; routing-table validity oracle on every stabilised state, on every member and through a cluster client",
    text="All sequences up to depth 3 (quick) / 4 (thorough) of {join, graceful leave, crash+detection, crash+restart before detection of the oldest (coordinator) / youngest / a middle member, re-join under the same address} from 1-3 initial members, R in 1..3, P in {7,13}, with and without stored data; after each event the cluster is stabilised and: all members and a cluster client hold the same table, every primary owner is live, the current backups are min(R,N)-1 distinct live non-primary members, further listed owners are live and hold data, no departed id is listed, nobody exceeds ceil(P/N*LoadFactor), the coordinator is the oldest member everywhere, keys map to one owner.",
    note="membership events come from the fake discovery layer (overlay replacement of 3 files of internal/discovery); its conformance to real memberlist is not yet replayed in this round: traces_validated_against_impl=0"),
+
+ "C20": dict(cat="model_checking", engine="kvmc", ref="6 C20",
+   technique="explicit-state search TO A FIXPOINT over canonical post-compaction layouts of the real KVStore (bursts of operations followed by compaction until done); closure of the state space proves the bounds for workloads of any length over the alphabet",
+   text="States are post-compaction store layouts in canonical form; a transition is any burst of 1..3 (quick) / 1..4 (thorough) operations from {Put or PutRaw(k,size), Delete(k)} over 2 (quick) / 3 (thorough) keys and two sizes, followed by Compaction() until done; primary (Put) and backup (PutRaw) mode, idle-table timeout 0 and 15 minutes. After every burst: inuse+garbage=offset per table, sum of inuse = live bytes, Length = live keys. On every post-compaction state: no live table at or above the 40% garbage threshold, tables <= live keys + 2, recycled tables released when the timeout is 0. The search runs until no burst produces a new state (fixpoint), which it does on the current tree.",
+   note="soundness of the closure argument rests on kvmc.Canon (documented there): layout, numbering gaps and per-key version order are kept, absolute coefficients/timestamps/last-access dropped; ttl-expiry churn is represented by Delete (the store never interprets ttl)"),
 })
 not_applicable = {}
 all_ids = ["C%02d" % i for i in range(1, 21)]
